@@ -841,6 +841,266 @@ func burst(rng *rand.Rand) bool {
 	return waitFor(&wg)
 }
 
+
+// ------------------------------------------------------------------------------------------ controlled schedules
+
+// controlledHistory: 2..3 goroutines with PRIVATE handles (the per-handle locks never contend) run 2..4 calls each under
+// a token scheduler: only the goroutine that holds the token runs; it hands the token back before every acquisition of
+// the lock of the shared map (hook mapdb.VerifHook, build tag verif) and at the boundaries of its calls, and the scheduler
+// picks at random who goes on. The schedule is therefore a random interleaving at the grain of the map lock's critical
+// sections: an operation that must be atomic but takes the lock twice is cut open between its two halves. Afterwards
+// thread 1 lists the whole store, so that every lost or phantom update is observed.
+type ctlSched struct {
+	turn  []chan struct{}
+	back  chan bool // true = the goroutine is done
+	on    atomic.Bool
+	cur   int
+	locks int  // acquisitions of the map lock by the running goroutine since its call began
+	inner bool // the running goroutine stopped before its 2nd+ acquisition within one call
+}
+
+// yield hands the token back; lock = the goroutine is about to take the map lock (else: a call boundary).
+func (cs *ctlSched) yield(lock bool) {
+	if !cs.on.Load() {
+		return
+	}
+	t := cs.cur
+	if lock {
+		cs.locks++
+	} else {
+		cs.locks = 0
+	}
+	cs.inner = cs.locks >= 2
+	cs.back <- false
+	<-cs.turn[t]
+}
+
+func controlledHistory(rng *rand.Rand, id int) (lines []core.Ev, finished bool) {
+	threads := 2 + rng.Intn(2)
+	w := newWorld(core.Pick(rng, "none", "none", "flush"))
+	// a small pool below one prefix, so that DeletePrefix / Clear / Iterate meet the keys the others write
+	vA := core.Pick(rng, 1, 2, 3)
+	seen := map[string]bool{}
+	var pool [][]byte
+	for len(pool) < 2+rng.Intn(3) {
+		fk := append(cp(realmOf[vA]), randKey(rng, 2)...)
+		if !seen[string(fk)] {
+			seen[string(fk)] = true
+			pool = append(pool, fk)
+		}
+	}
+	w.setPool(pool)
+	h := newHist(threads)
+	// initial content (thread 1, before the others start)
+	a0 := &actor{w: w, t: 1, r: rand.New(rand.NewSource(rng.Int63())), own: true}
+	for _, fk := range pool {
+		if rng.Intn(3) > 0 {
+			a0.ncal++
+			c := &call{op: "Set", v: 1, k: fk, val: a0.value(0)}
+			c.view = a0.handle(1)
+			h.do(1, c)
+		}
+	}
+	cs := &ctlSched{turn: make([]chan struct{}, threads+1), back: make(chan bool)}
+	acts := make([]*actor, threads+1)
+	plans := make([][]*call, threads+1)
+	for t := 1; t <= threads; t++ {
+		cs.turn[t] = make(chan struct{})
+		a := a0
+		if t > 1 {
+			a = &actor{w: w, t: t, r: rand.New(rand.NewSource(rng.Int63())), own: true}
+		}
+		acts[t] = a
+		for i, n := 0, 3+rng.Intn(3); i < n; i++ {
+			c := a.randomCall()
+			c.hook = nil
+			if x := rng.Intn(20); x < 13 { // more writes, and more of the calls that touch several keys
+				p := w.pairs[rng.Intn(len(w.pairs))]
+				switch {
+				case x < 3:
+					c = &call{op: "DeletePrefix", v: p.v, k: p.k[:rng.Intn(len(p.k)+1)]}
+				case x < 4:
+					c = &call{op: "Clear", v: p.v}
+				case x < 6:
+					c = &call{op: "Iterate", v: p.v, k: p.k[:rng.Intn(len(p.k)+1)], dir: "fwd"}
+				case x < 11:
+					c = &call{op: "Set", v: p.v, k: p.k, val: a.value(0)}
+				default:
+					c = &call{op: "Get", v: p.v, k: p.k}
+				}
+				c.view = a.handle(c.v)
+			}
+			plans[t] = append(plans[t], c)
+		}
+	}
+	// atomicity probe (one history in three): goroutine 2 makes ONE call that reads or writes several keys, goroutine 3
+	// overwrites a key that is present and creates one that is absent (both inside what that call covers) and looks at
+	// them; goroutine 2 is stopped before its probeAt-th further acquisition of the map lock within the call (there is
+	// none in the unchanged store except between the entries of a batch), goroutine 3 runs, goroutine 2 finishes.
+	probe, probeAt := rng.Intn(3) == 0 && threads == 3, core.Pick(rng, 1, 1, 2, 3)
+	if probe {
+		var present, absent []pair
+		for _, fk := range pool {
+			p := pair{vA, fk[len(realmOf[vA]):]}
+			if _, err := w.views[1].Get(cp(fk)); err == nil {
+				present = append(present, p)
+			} else {
+				absent = append(absent, p)
+			}
+		}
+		if len(present) == 0 || len(absent) == 0 {
+			probe = false
+		} else {
+			a2, a3 := acts[2], acts[3]
+			var c *call
+			switch rng.Intn(6) {
+			case 0, 1:
+				c = &call{op: "DeletePrefix", v: vA, k: []byte{}}
+			case 2:
+				c = &call{op: "Clear", v: vA}
+			case 3:
+				c = &call{op: "Iterate", v: vA, k: []byte{}, dir: core.Pick(rng, "fwd", "bwd")}
+			case 4:
+				c = &call{op: "IterateKeys", v: vA, k: []byte{}, dir: core.Pick(rng, "fwd", "bwd")}
+			default:
+				c = &call{op: "Commit", v: vA}
+				a2.ncal++
+				for j, p := range append(append([]pair{}, present...), absent...) {
+					c.ops = append(c.ops, bop{k: p.k, val: a2.value(j + 1)})
+				}
+			}
+			c.view = a2.handle(c.v)
+			plans[2] = []*call{c}
+			plans[1] = nil
+			plans[3] = nil
+			kp, ka := present[rng.Intn(len(present))], absent[rng.Intn(len(absent))]
+			for _, x := range rng.Perm(4) {
+				a3.ncal++
+				var d *call
+				switch x {
+				case 0:
+					d = &call{op: "Set", v: vA, k: kp.k, val: a3.value(0)}
+				case 1:
+					d = &call{op: "Set", v: vA, k: ka.k, val: a3.value(0)}
+				case 2:
+					d = &call{op: "Get", v: vA, k: kp.k}
+				default:
+					d = &call{op: "Get", v: vA, k: ka.k}
+				}
+				d.view = a3.handle(vA)
+				plans[3] = append(plans[3], d)
+			}
+		}
+	}
+	mapdb.VerifHook = func(string) { cs.yield(true) }
+	defer func() { mapdb.VerifHook = nil }()
+	cs.on.Store(true)
+	for t := 1; t <= threads; t++ {
+		go func(t int) {
+			<-cs.turn[t]
+			for _, c := range plans[t] {
+				if !c.prepare() {
+					continue
+				}
+				h.inv(t, c)
+				cs.yield(false)
+				res := c.run()
+				h.ret(t, res)
+				cs.yield(false)
+			}
+			cs.back <- true
+		}(t)
+	}
+	live := map[int]bool{}
+	for t := 1; t <= threads; t++ {
+		live[t] = true
+	}
+	finished = true
+	// step lets goroutine t run to its next yield point (or its end)
+	locks := make([]int, threads+1) // per goroutine: cs.locks while it is parked
+	step := func(t int) {
+		cs.cur, cs.locks, cs.inner = t, locks[t], false
+		defer func() { locks[t] = cs.locks }()
+		cs.turn[t] <- struct{}{}
+		select {
+		case done := <-cs.back:
+			if done {
+				delete(live, t)
+			}
+		case <-time.After(watchdog):
+			finished = false // the goroutine neither came back to the scheduler nor finished
+		}
+	}
+	pick := func() int {
+		var ts []int
+		for t := range live {
+			ts = append(ts, t)
+		}
+		sort.Ints(ts)
+		return ts[rng.Intn(len(ts))]
+	}
+	if probe {
+		inner := 0
+		for live[2] && finished && inner < probeAt {
+			step(2)
+			if cs.inner {
+				inner++
+			}
+		}
+		for live[3] && finished {
+			step(3)
+		}
+		for len(live) > 0 && finished {
+			step(pick())
+		}
+	} else if rng.Intn(2) == 0 {
+		// sticky random walk: the running goroutine keeps the token with probability 2/3
+		cur := 0
+		for len(live) > 0 && finished {
+			if !live[cur] || rng.Intn(3) == 0 {
+				cur = pick()
+			}
+			step(cur)
+		}
+	} else {
+		// few preemptions: a victim is stopped at a random yield point (mostly between two critical sections of one call),
+		// the others run one after the other to completion or to their own preemption, then the victim goes on
+		order := rng.Perm(threads)
+		var rec func(i int)
+		rec = func(i int) {
+			if i >= len(order) || !finished {
+				return
+			}
+			t := order[i] + 1
+			// (a call of the unchanged store takes the map lock once - a batch once per entry: a goroutine that comes back
+			// before a further acquisition within one call is between two critical sections; that is where it is stopped)
+			for j := 4 + rng.Intn(20); j > 0 && live[t] && finished; j-- {
+				step(t)
+				if cs.inner && rng.Intn(3) > 0 {
+					break
+				}
+			}
+			rec(i + 1)
+			for live[t] && finished {
+				step(t)
+			}
+		}
+		rec(0)
+	}
+	cs.on.Store(false)
+	if finished {
+		a0.ncal++
+		c := &call{op: "Iterate", v: 1, k: []byte{}, dir: "fwd"}
+		c.view = a0.handle(1)
+		h.do(1, c)
+	}
+	lines = append(lines, core.Ev{"op": "reset", "cfg": core.Ev{"wrap": w.wrap}, "kind": "controlled", "id": id,
+		"threads": threads, "procs": 16})
+	lines = append(lines, h.merged()...)
+	lines = append(lines, core.Ev{"op": "final", "finished": finished})
+	return lines, finished
+}
+
 // ------------------------------------------------------------------------------------------ command
 
 func drive(args []string) int {
@@ -851,6 +1111,7 @@ func drive(args []string) int {
 	nforced := fs.Int("forced", 60, "forced schedules (iteration held in its consumer)")
 	nburst := fs.Int("bursts", 20, "unlogged bursts of 16 goroutines (race detector)")
 	wd := fs.Int("watchdog", 20, "seconds after which a history counts as hung")
+	nctl := fs.Int("controlled", 200, "controlled schedules (token scheduler over the acquisitions of the shared map's lock)")
 	nfc := fs.Int("flushclose", 1, "forced schedules flushkv mutation / Close (known finding, judged by the strict cfg)")
 	fs.BoolVar(&closeAll, "closeall", false, "every free-running history: flushkv + one goroutine calling Close")
 	_ = fs.Parse(args)
@@ -880,6 +1141,10 @@ func drive(args []string) int {
 		emit(flushCloseHistory(id))
 	}
 	// forced schedules are spread between the free-running histories
+	for i := 0; i < *nctl && hangs < 3; i++ {
+		id++
+		emit(controlledHistory(rng, id))
+	}
 	for i := 0; (i < *nfree || i < *nforced) && hangs < 3; i++ { // after 3 hung histories the verdict is clear
 		if i < *nforced {
 			id++
@@ -896,7 +1161,7 @@ func drive(args []string) int {
 			bhangs++
 		}
 	}
-	fmt.Printf("{\"free\": %d, \"forced\": %d, \"events\": %d, \"hangs\": %d, \"bursts\": %d, \"burst_hangs\": %d}\n",
-		*nfree, *nforced, events, hangs, *nburst, bhangs)
+	fmt.Printf("{\"free\": %d, \"forced\": %d, \"controlled\": %d, \"events\": %d, \"hangs\": %d, \"bursts\": %d, \"burst_hangs\": %d}\n",
+		*nfree, *nforced, *nctl, events, hangs, *nburst, bhangs)
 	return 0
 }
